@@ -57,6 +57,24 @@ fn drop_calls(c: &Case, t: usize, a: usize, b: usize) -> Case {
     n
 }
 
+/// Append thread `b`'s calls to thread `a` (a < b or a > b), dropping every switch: a purely sequential history.
+fn merge_all_threads(c: &Case, order: &[usize]) -> Case {
+    let mut calls = Vec::new();
+    for t in order {
+        calls.extend(c.threads[*t].iter().cloned());
+    }
+    Case { threads: vec![calls], churn: vec![vec![]], start: 0, switches: vec![] }
+}
+
+fn merge_two(c: &Case, a: usize, b: usize) -> Case {
+    // b's calls run after a's, on a's thread; switches of both threads are dropped
+    let mut n = drop_thread(c, b);
+    let a2 = if b < a { a - 1 } else { a };
+    n.threads[a2].extend(c.threads[b].iter().cloned());
+    n.switches.retain(|s| s.thread as usize != a2 && s.to as usize != a2);
+    n
+}
+
 fn simpler_calls(c: &Call) -> Vec<Call> {
     let mut v = Vec::new();
     for t in ["1", "@", "1+@"] {
@@ -115,6 +133,32 @@ pub fn minimise(
         false
     };
 
+    // like try_batch, but "smaller" = fewer threads first (merging keeps the number of calls)
+    let try_batch_any = |best: &mut Case, best_res: &mut RunResult, st: &mut MinStats, cands: Vec<Case>, oc: &mut OracleCache| -> bool {
+        if cands.is_empty() {
+            return false;
+        }
+        let tmo = cands.iter().map(case_timeout).max().unwrap_or(Duration::from_secs(2));
+        let res = run_cases(&cands, oc, workers, tmo);
+        st.candidates += cands.len();
+        for (c, r) in cands.into_iter().zip(res.into_iter()) {
+            if let Some(r) = r {
+                if r.violation_class() == class && class.is_some() && c.total_calls() <= best.total_calls() && c.threads.len() < best.threads.len() {
+                    let mut c = c;
+                    if let Some((start, sw)) = r.recorded() {
+                        c.start = start;
+                        c.switches = sw;
+                    }
+                    *best = c;
+                    *best_res = r;
+                    st.accepted += 1;
+                    return true;
+                }
+            }
+        }
+        false
+    };
+
     let mut progress = true;
     while progress && !over(&st) {
         progress = false;
@@ -127,6 +171,16 @@ pub fn minimise(
                 progress = true;
             }
         }
+        // T0b: all calls on one thread, in thread order / reverse thread order
+        if best.threads.len() > 1 && !over(&st) {
+            let n = best.threads.len();
+            let fwd: Vec<usize> = (0..n).collect();
+            let rev: Vec<usize> = (0..n).rev().collect();
+            let cands = vec![merge_all_threads(&best, &fwd), merge_all_threads(&best, &rev)];
+            if try_batch_any(&mut best, &mut best_res, &mut st, cands, oc) {
+                progress = true;
+            }
+        }
         // T1: drop whole threads
         loop {
             if best.threads.len() <= 1 || over(&st) {
@@ -134,6 +188,27 @@ pub fn minimise(
             }
             let cands: Vec<Case> = (0..best.threads.len()).map(|t| drop_thread(&best, t)).collect();
             if try_batch(&mut best, &mut best_res, &mut st, cands, oc) {
+                progress = true;
+            } else {
+                break;
+            }
+        }
+        // T1b: merge two threads into one
+        loop {
+            if best.threads.len() <= 1 || over(&st) {
+                break;
+            }
+            let n = best.threads.len();
+            let mut cands = Vec::new();
+            for a in 0..n {
+                for b in 0..n {
+                    if a != b {
+                        cands.push(merge_two(&best, a, b));
+                    }
+                }
+            }
+            cands.truncate(64);
+            if try_batch_any(&mut best, &mut best_res, &mut st, cands, oc) {
                 progress = true;
             } else {
                 break;
@@ -245,6 +320,30 @@ pub fn minimise(
                     for s in simpler_calls(&best.threads[t][k]) {
                         let mut c = best.clone();
                         c.threads[t][k] = s;
+                        cands.push(c);
+                    }
+                }
+            }
+            // the same replacement applied to every call that shares (evaluator, text): keeps "same expression" relations
+            let mut groups: Vec<(Ev, String)> = Vec::new();
+            for t in &best.threads {
+                for c in t {
+                    if !groups.contains(&(c.ev, c.expr.clone())) {
+                        groups.push((c.ev, c.expr.clone()));
+                    }
+                }
+            }
+            for (ev, text) in groups {
+                for simple in ["@", "1+@", "@*2", "1"] {
+                    if text.len() > simple.len() {
+                        let mut c = best.clone();
+                        for t in c.threads.iter_mut() {
+                            for call in t.iter_mut() {
+                                if call.ev == ev && call.expr == text {
+                                    call.expr = simple.to_string();
+                                }
+                            }
+                        }
                         cands.push(c);
                     }
                 }
